@@ -553,6 +553,10 @@ def main():
         res, events, rc0 = replay_once(binary, path)
         got = findings_of(binary, f.world, f.variant, f.flavour, res, events, rc0)
         if not any(g.cls() == cls for g in got):
+            if f.kind == "hang":
+                # the batch ran 16 worlds at once; alone the run finishes inside its budget: slow, not stuck
+                other["slow-run-not-a-hang"] += len(fl_list)
+                continue
             print("MACHINERY: replay of run %d did not reproduce %s (got %s)" % (f.run, cls, [g.cls() for g in got]))
             return 2
         # confirmations that keep a check from alarming on somebody else's property
